@@ -54,6 +54,10 @@ MC = {
                       "cfg": dec_cfg("TokHIST", "FirstHIST", q(3, 4), ["TypeOK", "BoundaryFresh", "IdleStepEq"], caps="{0, 1, 2, 1073741824}")},
     "tiles_hist": {"module": "MC_Decoder",
                    "cfg": dec_cfg("TokHIST", "FirstHIST", q(3, 4), ["Tiles"], caps="{0, 2, 1073741824}")},
+    # deep random walks (TLC -simulate) beyond the exhaustive depth: 12 tokens incl. finalize / reset, five capacities
+    "sim_hist": {"module": "MC_Decoder", "workers": 8, "simulate": True,
+                 "extra": lambda tier: ["-simulate", "num=%d" % (400 if tier == "thorough" else 40), "-depth", "14"],
+                 "cfg": dec_cfg("TokHIST", "FirstHIST", 12, ["TypeOK", "Sound", "Tiles", "BoundaryFresh", "IdleStepEq", "MatcherExact"], caps="{0, 1, 2, 5, 1073741824}")},
     "resync_noise": {"module": "MC_Decoder",
                      "cfg": dec_cfg("TokNOISE", "FirstNOISE", q(6, 8), ["TypeOK", "MatcherExact", "Resync", "Tiles"])},
     "roundtrip_pay": {"module": "MC_Decoder",
@@ -142,11 +146,11 @@ PROPS = {
                 steps=[{"cmd": "c01", "judge": "J_C01"}]),
     "C02": dict(T("every ok event of the real decoder front-ends (push, decode_streaming, SmlReader over iterator / io::Read) on ADV / INFRAME / HIST token trees, corpus dumps and "
                   "seeded mutations; a record is (payload, tail of the consumed prefix); distinct = distinct (prefix tail, payload) pairs; every record is an accepted frame"),
-                mc={"quick": ["sound_adv"], "thorough": ["sound_adv", "total_hist"]},
+                mc={"quick": ["sound_adv"], "thorough": ["sound_adv", "total_hist", "sim_hist"]},
                 steps=[{"cmd": "c02", "judge": "J_C02"}]),
     "C05": dict(T("push/finalize/reset histories (HIST), INFRAME, NOISE, corpus, mutations on Decoder<Vec> and Decoder<ArrayBuf<N>> N in {0,1,2,3,8}, each followed by finalize + empty frame + finalize; "
                   "long runs (2^8, 2^16 +-1, 2^17+1) through all front-ends; overflow-checked build; distinct = distinct (capacity, event list)"),
-                mc={"quick": ["total_hist"], "thorough": ["total_hist", "boundary_hist"]},
+                mc={"quick": ["total_hist"], "thorough": ["total_hist", "boundary_hist", "sim_hist"]},
                 steps=[{"cmd": "c05", "judge": "J_C05", "profile": "checked", "watchdog": {"quick": 600, "thorough": 5400}},
                        {"cmd": "c05", "judge": "J_Conf", "profile": "checked", "reuse": True, "drift": True}]),
     "C07": dict(T("same payload families as C01; both encoders compared with Frame.Canonical; ArrayBuf capacities around the frame length; 5 extra next() calls after the iterator ended"),
